@@ -16,6 +16,7 @@ mod fen;
 mod ucifam;
 mod lichess;
 mod pgn;
+mod search;
 
 fn main() {
     let args: Vec<String> = env::args().collect();
@@ -34,6 +35,7 @@ fn main() {
         "uci" => ucifam::run(rest),
         "lichess" => lichess::run(rest),
         "pgn" => pgn::run(rest),
+        "search" => search::run(rest),
         other => {
             eprintln!("unknown family {}", other);
             2
